@@ -63,11 +63,31 @@ def cmd_check(args):
     kinds = res["kinds"]
 
     # ---- engine-level failures
+    n_unit_refutes = 0
     for u in units:
         if u.get("crash"):
             engine_errors.append(f"unit {u['key']}@{u['label']} crashed:\n{u['crash']}")
         elif u.get("unsupported"):
-            undecided.append(f"UNSUPPORTED {u['key']}@{u['label']}: {u['unsupported']}")
+            found = None
+            if "needs an inductive invariant" in str(u["unsupported"]) and n_unit_refutes < 2:
+                # a loop shape no invariant of the contract fits (e.g. two loops merged): undecided for all inputs, but the
+                # bounded instances (concrete small sizes) can still exhibit a failing input on the real function
+                n_unit_refutes += 1
+                try:
+                    from pyvc import replay as rp0
+                    found = rp0.refute_unit_bounded(pid, u["key"], u["label"], run.REPO_SRC)
+                except Exception:
+                    found = None
+            if found:
+                found["repo"] = run.REPO
+                found["note"] = f"unit not covered by the unbounded executor ({u['unsupported']}); violation found by bounded refutation"
+                safe = found["obligation"].replace("/", "_").replace(" ", "_").replace(":", "_")[:150]
+                path = os.path.join(replay_dir, f"{pid}-{safe}.json")
+                with open(path, "w") as f:
+                    json.dump(found, f, indent=1, default=str)
+                violations.append((found["obligation"], path, True, found))
+            else:
+                undecided.append(f"UNSUPPORTED {u['key']}@{u['label']}: {u['unsupported']}")
     n_obl = sum(1 for k in kinds.values() if k != "canary")
     ground = []
     for name, fn in run.GROUND_CHECKS.get(pid, []):
